@@ -23,8 +23,8 @@ Inductive mode := MSingle | MArray | MMap.
 (* the declarations whose every component is carried by the annotations *)
 Definition no_list (t : fty) : bool :=
   match t with
-  | TInt _ _ None | TStr _ None | TBytes _ | TBool _ None | TEnum _ None | TKey _ _ None
-  | TFloat _ None | TDate _ None | TDecimal _ None | TTimestamp None | TAny None
+  | TInt _ _ None | TStr _ _ None | TBytes _ | TBool _ None | TEnum _ None | TKey _ _ None
+  | TFloat _ None | TDate _ None | TDecimal _ None | TTimestamp None | TAny _ _ None
   | TObject _ | TOneof None => true
   | _ => false
   end.
@@ -33,7 +33,8 @@ Definition rt_fty (m : mode) (t : fty) : bool :=
   (* list rules of map values are not read back *)
   (match m with MMap => no_list t | _ => true end) &&
   match m, t with
-  | _, TStr (Some r) _ => pat_plain (sr_pat r)
+  | _, TStr (Some _) _ _ => false            (* StringField.format is not written *)
+  | _, TStr None (Some r) _ => pat_plain (sr_pat r)
   | _, TKey None e l =>
       (* without a format the key is recognised by its annotations only *)
       match l with Some _ => false | None => match m with MSingle => true | _ => is_some e end end
@@ -43,6 +44,7 @@ Definition rt_fty (m : mode) (t : fty) : bool :=
   (* inside an array or a map there is no (j5.ext.v1.field) of the item *)
   | _, TDate (Some _) _ | _, TDecimal (Some _) _ => false
   | _, TObject true => false
+  | _, TAny od ts _ => negb od && match ts with [] => true | _ => false end
   | _, _ => true
   end.
 
@@ -143,7 +145,7 @@ Lemma no_list_arm t env w :
   no_list t = true -> write_field env t = Ok w -> fw_list w = None.
 Proof.
   intros Hn Hw.
-  destruct t as [k r l0|r l0|r|r l0|r l0|f e l0|f64 l0|r l0|r l0|l0|l0|fl|l0]; cbn [no_list] in Hn;
+  destruct t as [k r l0|sf r l0|r|r l0|r l0|f e l0|f64 l0|r l0|r l0|l0|od ts l0|fl|l0]; cbn [no_list] in Hn;
     try (destruct l0; [discriminate|]); cbn [write_field] in Hw;
     try (apply obind_ok in Hw as [x [Hx Hw]]); inversion Hw; subst w; cbn [fw_list with_arm]; try reflexivity.
   inversion Hx. reflexivity.
@@ -157,7 +159,7 @@ Proof.
   assert (Hls : list_seen m w = fw_list w).
   { destruct m; try reflexivity. cbn [list_seen]. symmetry. eapply no_list_arm; eauto. }
   rewrite Hls. clear Hls Hnl. unfold vt_seen.
-  destruct t as [k r l|r l|r|r l|r l|f e l|f64 l|r l|r l|l|l|fl|l]; cbn [write_field] in Hw.
+  destruct t as [k r l|sf r l|r|r l|r l|f e l|f64 l|r l|r l|l|od ts l|fl|l]; cbn [write_field] in Hw.
   - (* integer *)
     apply obind_ok in Hw as [vo [Hv Hw]]. inversion Hw; subst w; clear Hw.
     cbn [fw_kind fw_val fw_list fw_ext fw_key].
@@ -168,6 +170,7 @@ Proof.
       - inversion Hv; subst. reflexivity. }
     destruct k; cbn [int_pkind read_field norm_fty int_larm] in *; rewrite Hr, get_list_with_arm; reflexivity.
   - (* string *)
+    destruct sf as [sf|]; [destruct m, r; discriminate|].
     inversion Hw; subst w; clear Hw. cbn [fw_kind fw_val fw_list fw_ext fw_key read_field].
     assert (Hp : match r with Some r => pat_plain (sr_pat r) = true | None => True end)
       by (destruct r; [destruct m; exact Hrt|exact I]).
@@ -223,7 +226,10 @@ Proof.
     rewrite get_list_with_arm. reflexivity.
   - (* any *)
     inversion Hw; subst w; clear Hw. cbn [fw_kind fw_list fw_ext read_field norm_fty].
-    rewrite get_list_with_arm. destruct m; reflexivity.
+    rewrite get_list_with_arm.
+    destruct m; cbn [j5_seen fw_ext]; try reflexivity;
+      apply andb_true_iff in Hrt as [H1 H2]; destruct od; try discriminate;
+      destruct ts; try discriminate; reflexivity.
   - (* object *)
     inversion Hw; subst w; clear Hw. cbn [fw_kind fw_ext read_field norm_fty].
     destruct m, fl; try discriminate; reflexivity.
@@ -236,7 +242,7 @@ Qed.
 Lemma kind_not_map env t w : write_field env t = Ok w -> forall v, fw_kind w <> KdMapEntry v.
 Proof.
   intros Hw v.
-  destruct t as [k r l|r l|r|r l|r l|f e l|f64 l|r l|r l|l|l|fl|l]; cbn [write_field] in Hw;
+  destruct t as [k r l|sf r l|r|r l|r l|f e l|f64 l|r l|r l|l|od ts l|fl|l]; cbn [write_field] in Hw;
     try (apply obind_ok in Hw as [x [Hx Hw]]); inversion Hw; subst w; cbn [fw_kind];
     try discriminate.
   - destruct k; discriminate.
@@ -248,7 +254,7 @@ Lemma write_field_primary_ty env t w :
   match fw_key w with Some k => kx_primary k | None => false end = is_primary_ty t.
 Proof.
   intro Hw.
-  destruct t as [k r l|r l|r|r l|r l|f e l|f64 l|r l|r l|l|l|fl|l]; cbn [write_field] in Hw;
+  destruct t as [k r l|sf r l|r|r l|r l|f e l|f64 l|r l|r l|l|od ts l|fl|l]; cbn [write_field] in Hw;
     try (apply obind_ok in Hw as [x [Hx Hw]]);
     inversion Hw; subst w; cbn [fw_key is_primary_ty]; try reflexivity.
   destruct e as [[ty tn]|]; [|reflexivity]. cbn. destruct ty as [[[|]|]|]; reflexivity.
